@@ -1,14 +1,13 @@
-"""C10 -- parameter expansion: current values, once, terminates.
-L1: expand_env (in-process, hooks) vs the extracted model on every word of <= 3 (quick) / 4
-(thorough) segments plus random words to 6 segments, under 10 variable environments, in the
-unquoted / double-quoted / single-quoted form; inputs on which the model diverges are sent to
-the implementation only one at a time under a timeout (expected: the timeout).  The property's
-oracle (one left-to-right pass, written independently here and also taken from the extracted
-den_pieces) is applied to the implementation's output.
-L0: env_in_token / expand_one_env on every string up to length 4/5 over the characters the six
-test patterns and re1/re2 mention (ties the generated regex ASTs and the hand-written first-match
-functions to the regex crate).
-L2: argv of helpers/hp through `cicada -c` for the known-finding replays and sampled words."""
+"""C10 -- parameter expansion: current values, once, terminates (one-pass scan since e586def).
+L0: env_in_token / expand_env_once on every string up to length 4/5 over the characters the six gate
+patterns and the scan mention (ties the generated regex ASTs and the transcription of the scan to the code).
+L1: expand_env (in-process, hooks) vs the extracted model on every word of <= 3 (quick) / 4 (thorough)
+segments plus random words to 6 segments, under 10 variable environments (values with references, self and
+mutual references, newlines, quotes, parens), in the unquoted / double-quoted / single-quoted form.  The
+property's oracle (one left-to-right pass, written independently here and cross-checked against the extracted
+den_pieces / gate_ok) is applied to the implementation's output; a case that does not return is reported by
+the harness watchdog as HANG, which is a violation with that word as failing input.
+L2: argv of helpers/hp through `cicada -c` for sampled words."""
 import itertools, os, re, shutil, subprocess, tempfile
 import common as C
 import expand_common as X
@@ -17,23 +16,22 @@ EXTRACT = ["C10"]
 BINS = ["c10"]
 NEEDS_CICADA = True
 ALLOWED_AXIOMS = []
-PINNED = ["C10_full", "C10_refuted", "C10_partial", "C10_diverges", "C10_single_quoted",
-          "C10_refuted_rescan", "C10_refuted_self_reference", "C10_refuted_newline", "C10_refuted_unterminated"]
+PINNED = ["C10_scan", "C10_full", "C10_refuted", "C10_partial", "C10_line", "C10_single_quoted", "C10_do_expansion_inert",
+          "C10_values_not_rescanned"]
 TRUSTED = [
     "Coq 8.16.1 kernel (coqc; coqchk in thorough); vm_compute only in concrete witnesses / non-vacuity examples",
-    "hand transcription of env_in_token / expand_one_env / expand_env (coq/theories/Model/Expand.v), tied by differential execution",
+    "hand transcription of env_in_token / env_ref_at / expand_env_once / expand_env (coq/theories/Model/Expand.v), "
+    "tied by differential execution (L0 exhaustive on short strings, L1)",
     "tools/regex2coq.py (regex literal -> AST for the six yes/no patterns of env_in_token, regenerated every run); "
     "the derivative matcher is proved equivalent to the denotational Matches (Base/Regex.v), that Matches is the regex "
     "crate's is_match is checked by layer L0",
-    "first-match functions find_re1 / find_re2 (hand-written leftmost-first semantics of re1 / re2; literals pinned in "
-    "Proofs/ExpandBasics.v), checked by L0/L1 only",
     "extraction: ExtrOcamlBasic only; OCaml 4.13.1; ocaml/c10/drv.ml; harness/src/expand_ops.rs; drive/c10.py",
-    "variable lookup, $? and $$ are World oracles (env_var first, then sh_var: the order of expand_one_env)",
+    "variable lookup, $? and $$ are World oracles (env_var first, then sh_var: the order of expand_env_once)",
 ]
 ASSUMES = [
-    "C10_partial speaks about words that are renderings of well-formed segment lists (every dollar starts a well-formed "
-    "reference) whose literals and referenced values contain no dollar, newline, open paren, and not both '=' and a "
-    "backquote/single quote (the exemption patterns of env_in_token)",
+    "C10_partial / C10_line speak about words that are renderings of well-formed segment lists (every dollar starts a "
+    "well-formed reference, unbraced names are maximal); VALUES are unrestricted; the only excluded class is the gate's "
+    "exemption shapes: literal text with an open paren, or with '=' together with a backquote / single quote",
 ]
 
 SEGS_Q = ["a", "B", "$A", "${A}", "$AB", "${AB}", "$?", "$$", "{", "}", "$1", " ", ".", "$"]
@@ -94,20 +92,12 @@ def ref_subst(word, env, status, pid):
 
 
 def classify(word, env, pieces, flags):
-    """Known_C10 mirrored: the classes outside the domain of C10_partial (decidable on the input)."""
-    cls = set()
-    names = set(p[1:] for p in pieces if p[0] in "UB") if pieces else set(NAME1.findall(word))
-    vals = [lookup(env, k) for k in names]
-    if any("$" in v for v in vals):
-        cls.add("value_rescanned")
-    if "\n" in word or any("\n" in v for v in vals):
-        cls.add("newline")
-    if pieces is None or "malformed_reference" in flags or "lone_dollar" in flags:
-        cls.add("malformed_reference")
-    allc = word + "".join(vals)
-    if "(" in allc or ("=" in allc and ("`" in allc or "'" in allc)):
-        cls.add("exemption_pattern")
-    return cls
+    """Known_C10 mirrored (decidable on the WORD alone since e586def; values play no role): the gate
+    env_in_token exempts token shapes that need an open paren, or an equals sign together with a
+    backquote / single quote."""
+    if "(" in word or ("=" in word and ("`" in word or "'" in word)):
+        return {"exemption_pattern"}
+    return set()
 
 
 def world_field(env, status=0, extra=()):
@@ -135,6 +125,11 @@ FUEL = 40
 MODEL_PID = "99999989"
 
 
+def gen(ctx=None):
+    """regenerates Gen/ShellRegexes.v from the regex literals of the current source (write-if-changed)"""
+    X.gen(ctx)
+
+
 def run(ctx, res):
     rng = ctx.rng
     known = {k["class"]: k for k in C.known_findings("C10")}
@@ -159,7 +154,7 @@ def run(ctx, res):
     for _ in range(3000):
         strs.append("".join(rng.choice(alpha + ["A=", "$A", "${A}", "$(", "='", "é"]) for _ in range(rng.randint(5, 12))))
     w0 = world_field(({"A": "v$1"}, {"x": "q"}), 7)
-    l0 = [C.case("eit", s) for s in strs] + [C.case("one", w0, s) for s in strs]
+    l0 = [C.case("eit", s) for s in strs] + [C.case("once", w0, s) for s in strs]
     p0 = C.write_cases("c10_l0.txt", l0)
     m0 = C.run_model(ctx.model["C10"], p0)
     i0 = C.run_impl(ctx.bins["c10"], p0, len(l0), timeout=600)
@@ -198,14 +193,19 @@ def run(ctx, res):
     hang_ix = [i for i, a in enumerate(m1) if a == "HANG"]
     run_ix = [i for i, a in enumerate(m1) if a != "HANG"]
     p1b = C.write_cases("c10_l1_run.txt", [lines[i] for i in run_ix])
-    i1 = dict(zip(run_ix, C.run_impl(ctx.bins["c10"], p1b, len(run_ix), timeout=600)))
-    nprobe = 24 if ctx.thorough else 8
+    # a short per-case watchdog: should the loop ever come back, thousands of words would hang
+    i1 = dict(zip(run_ix, C.run_impl(ctx.bins["c10"], p1b, len(run_ix), timeout=900, env={"HX_CASE_TIMEOUT_MS": "700"})))
+    # inputs on which the model diverges: a sample goes to the implementation, whose per-case watchdog
+    # (hx::main_loop) answers HANG after HX_CASE_TIMEOUT_MS and C.run_impl restarts the shard
+    nprobe = 320 if ctx.thorough else 48
     probe = rng.sample(hang_ix, min(nprobe, len(hang_ix)))
     from concurrent.futures import ThreadPoolExecutor
-    with ThreadPoolExecutor(max_workers=C.NCPU) as ex:
-        probed = list(ex.map(lambda i: X.hang_probe(ctx.bins["c10"], lines[i], timeout=4), probe))
-    for i, r in zip(probe, probed):
-        i1[i] = r
+    if probe:
+        pp = C.write_cases("c10_l1_probe.txt", [lines[i] for i in probe])
+        probed = C.run_impl(ctx.bins["c10"], pp, len(probe), shards=min(C.NCPU, len(probe)), timeout=900,
+                            env={"HX_CASE_TIMEOUT_MS": "1500"})
+        for i, r in zip(probe, probed):
+            i1[i] = r
     # reference via the extracted den_pieces for the words that are segment lists
     refs = {}
     dl, dix = [], []
@@ -245,15 +245,19 @@ def run(ctx, res):
         cls = classify(w, ENVS[ei], pieces, flags) if tg != "'" else set()
         if i in md and tg != "'":
             # the extracted reference must agree with the oracle written here, and dom=T with "no known class"
-            mm = re.match(r'^"([^"]*)" "([^"]*)" wf=(.) dom=(.)$', md[i])
+            mm = re.match(r'^"([^"]*)" "([^"]*)" wf=(.) gate=(.)$', md[i])
             if not mm or C.dec(mm.group(1)) != w or C.dec(mm.group(2)) != refs[i][0]:
                 violate(kind="oracle-self-check", input=w, env=env_desc, model=md[i], python=refs[i][0],
                         failing_input=False, note="extracted den_pieces and the driver's one-pass reference disagree")
             elif (mm.group(4) == "T") != (not cls):
                 violate(kind="oracle-self-check", input=w, env=env_desc, model=md[i], classes=sorted(cls),
-                        failing_input=False, note="c10_dom (Coq) and the driver's class predicate disagree")
+                        failing_input=False, note="gate_ok (Coq) and the driver's class predicate disagree")
         if a != b:
             # model and implementation differ
+            if got == exp and cls and any(c in known or (c + "_hang") in known for c in cls):
+                # inside a recorded class the implementation now meets the oracle: a repair (DESIGN 4.5)
+                res.extra["known_class_cases_meeting_the_oracle"] = res.extra.get("known_class_cases_meeting_the_oracle", 0) + 1
+                continue
             if got == exp:
                 violate(kind="correspondence", layer="L1", input=w, tag=tg, env=env_desc, model=a, impl=b,
                         failing_input=False, note="implementation meets the oracle here but differs from the model")
@@ -278,27 +282,32 @@ def run(ctx, res):
     res.sample({"layer": "L1", "input": cases[mid][0], "env": ENVS[cases[mid][1]], "model": m1[mid],
                 "impl": i1.get(mid), "reference": refs[mid][0]})
     # ------------------------------------------------------------ recorded findings, replayed at L1 and L2
+    # the one recorded class, and the six classes repaired by e586def as regression cases (fixed:<name>):
+    # for those the oracle must hold, nothing is tolerated
     replays = {
-        "value_rescanned": ("$A", ({}, {"A": "x$B", "B": "y"}), "", "xy"),
-        "self_reference_hang": ("$A", ({}, {"A": "$A"}), "", "HANG"),
-        "newline_hang": ("a\n$A", ({}, {"A": "v"}), '"', "HANG"),
-        "unterminated_brace_hang": ("${A", ({}, {"A": "v"}), "", "HANG"),
-        "newline_drops_lines": ("a\n${A}", ({}, {"A": "v"}), '"', "v"),
         "exemption_pattern": ("x='$A'", ({}, {"A": "v"}), '"', "x='$A'"),
-        "malformed_reference": ("$9x$A", ({}, {"A": "v"}), "", "v"),
+        "fixed:value_rescanned": ("$A", ({}, {"A": "x$B", "B": "y"}), "", None),
+        "fixed:self_reference_hang": ("$A", ({}, {"A": "$A"}), "", None),
+        "fixed:mutual_reference_hang": ("$A", ({"A": "$B"}, {"B": "$A"}), "", None),
+        "fixed:newline_hang": ("a\n$A", ({}, {"A": "v"}), '"', None),
+        "fixed:unterminated_brace_hang": ("${A", ({}, {"A": "v"}), "", None),
+        "fixed:newline_drops_lines": ("a\n${A}", ({}, {"A": "v"}), '"', None),
+        "fixed:malformed_reference": ("$9x$A", ({}, {"A": "v"}), "", None),
+        "fixed:rescan_builds_reference": ("${$A}", ({}, {"A": "HOME"}), "", None),
     }
     for cls, (w, env, tg, recorded) in sorted(replays.items()):
         line = C.case("env", world_field(env, 0), str(FUEL), X.toks_field([(tg, w)]))
         pm = C.write_cases("c10_replay.txt", [line])
         mo = C.run_model(ctx.model["C10"], pm)[0]
-        r = X.hang_probe(ctx.bins["c10"], line, timeout=4)
+        r = C.run_impl(ctx.bins["c10"], pm, 1, shards=1, env={"HX_CASE_TIMEOUT_MS": "2500"})[0]
         _, r = split_pid(r)
         got = "HANG" if r == "HANG" else tok_text(r)
         mgot = "HANG" if mo == "HANG" else tok_text(mo)
         exp, _, _ = ref_subst(w, env, 0, MODEL_PID)
         res.count("known_finding_replays", 1)
         if got == exp:
-            res.extra.setdefault("findings_no_longer_reproducing", []).append(cls)
+            if not cls.startswith("fixed:"):
+                res.extra.setdefault("findings_no_longer_reproducing", []).append(cls)
             continue
         if cls not in known:
             violate(kind="oracle", layer="L1", input=w, env=env, expected=exp, observed=got, failing_input=True,
